@@ -24,7 +24,7 @@ def WellOrdered (h : Hier) : Prop :=
   ∀ (i : Nat) (T : TDef), h[i]? = some T → ∀ b : Nat, T.base = some b → b < i
 
 /-- hierarchy of complex types with complex content only -/
-def ComplexOnly (h : Hier) : Prop := ∀ T ∈ h, T.complex = true ∧ T.simpleContent = false
+def ComplexOnly (h : Hier) : Prop := ∀ T ∈ h, T.complex = true ∧ T.simpleContent = false ∧ T.isUnion = false
 
 theorem chain_le {h : Hier} (wo : WellOrdered h) {t u ms} (c : Chain h t u ms) : u ≤ t := by
   induction c with
@@ -45,10 +45,10 @@ def DerivedSpec (h : Hier) (t u : Nat) (d : Option Meth) : Prop :=
   | none => ∃ ms, Chain h t u ms
   | some m => ∃ ms, Chain h t u ms ∧ some m ∈ ms
 
-theorem isDerived_complex (h : Hier) (wo : WellOrdered h) (co : ComplexOnly h) (u : Nat) (U : TDef)
+theorem isDerived_complex (q : Quirks) (h : Hier) (wo : WellOrdered h) (co : ComplexOnly h) (u : Nat) (U : TDef)
     (hU : h[u]? = some U) (hUa : U.anyType = false) :
     ∀ (n t : Nat), t ≤ n → ∀ (fuel : Nat), t < fuel → ∀ (T : TDef), h[t]? = some T → t ≠ u →
-      ∀ d, ∃ r, isDerived fuel h t u d = some r ∧ (r = true ↔ DerivedSpec h t u d) := by
+      ∀ d, ∃ r, isDerived q fuel h t u d = some r ∧ (r = true ↔ DerivedSpec h t u d) := by
   intro n
   induction n with
   | zero =>
@@ -181,22 +181,22 @@ theorem isDerived_complex (h : Hier) (wo : WellOrdered h) (co : ComplexOnly h) (
     and enough fuel, `is_derived(other)` holds exactly when `other` is reachable through base-type
     links; `is_derived(other, m)` exactly when moreover a step of the chain has method `m`
     (or trivially when both types are the same object). -/
-theorem isDerived_spec (h : Hier) (wo : WellOrdered h) (co : ComplexOnly h) (t u : Nat) (T U : TDef)
+theorem isDerived_spec (q : Quirks) (h : Hier) (wo : WellOrdered h) (co : ComplexOnly h) (t u : Nat) (T U : TDef)
     (hT : h[t]? = some T) (hU : h[u]? = some U) (hUa : U.anyType = false) (fuel : Nat) (hf : t < fuel) :
-    (isDerived fuel h t u none = some true ↔ ∃ ms, Chain h t u ms) ∧
-    (∀ m, isDerived fuel h t u (some m) = some true ↔ (t = u ∨ ∃ ms, Chain h t u ms ∧ some m ∈ ms)) ∧
-    (∀ d, ∃ r, isDerived fuel h t u d = some r) := by
+    (isDerived q fuel h t u none = some true ↔ ∃ ms, Chain h t u ms) ∧
+    (∀ m, isDerived q fuel h t u (some m) = some true ↔ (t = u ∨ ∃ ms, Chain h t u ms ∧ some m ∈ ms)) ∧
+    (∀ d, ∃ r, isDerived q fuel h t u d = some r) := by
   by_cases htu : t = u
   · subst htu
     obtain ⟨fuel, rfl⟩ : ∃ f, fuel = f + 1 := ⟨fuel - 1, by omega⟩
     have hc := co T (List.mem_of_getElem? hT)
     have hl : t < h.length := (List.getElem?_eq_some_iff.mp hT).1
-    have e : ∀ d, isDerived (fuel + 1) h t t d = some true := by
+    have e : ∀ d, isDerived q (fuel + 1) h t t d = some true := by
       intro d; simp [isDerived, hT, hc.1]
     refine ⟨?_, ?_, fun d => ⟨true, e d⟩⟩
     · simp only [e, true_iff]; exact ⟨[], Chain.refl t hl⟩
     · intro m; simp [e]
-  · have key := isDerived_complex h wo co u U hU hUa t t (Nat.le_refl _) fuel hf T hT htu
+  · have key := isDerived_complex q h wo co u U hU hUa t t (Nat.le_refl _) fuel hf T hT htu
     refine ⟨?_, ?_, fun d => ?_⟩
     · obtain ⟨r, h1, h2⟩ := key none
       rw [h1]; simp only [Option.some.injEq]; exact h2
@@ -230,18 +230,18 @@ def BlockedSpec (h : Hier) (t : Nat) (blk : List Meth) (declTy : Nat) : Prop :=
 
 /-- **C07, block.**  `is_blocked` holds exactly when the type differs from the declared type and some
     step of its derivation chain uses a method blocked by the element or by the declared type. -/
-theorem isBlocked_spec (h : Hier) (wo : WellOrdered h) (co : ComplexOnly h) (t dt : Nat) (T D : TDef)
+theorem isBlocked_spec (q : Quirks) (h : Hier) (wo : WellOrdered h) (co : ComplexOnly h) (t dt : Nat) (T D : TDef)
     (hT : h[t]? = some T) (hD : h[dt]? = some D) (hDa : D.anyType = false) (eb : List Meth)
     (fuel : Nat) (hf : t < fuel) :
-    ∃ r, isBlocked fuel h t eb dt = some r ∧ (r = true ↔ BlockedSpec h t (eb ++ D.block) dt) := by
+    ∃ r, isBlocked q fuel h t eb dt = some r ∧ (r = true ↔ BlockedSpec h t (eb ++ D.block) dt) := by
   unfold isBlocked BlockedSpec
   by_cases htd : t = dt
   · subst htd
     exact ⟨false, by simp, by simp⟩
   · have hne : (t == dt) = false := by simpa using htd
     simp only [hne, Bool.false_eq_true, if_false, hD]
-    obtain ⟨-, hs, hdec⟩ := isDerived_spec h wo co t dt T D hT hD hDa fuel hf
-    obtain ⟨r, h1, h2⟩ := foldr_any (fun m => isDerived fuel h t dt (some m)) (eb ++ D.block)
+    obtain ⟨-, hs, hdec⟩ := isDerived_spec q h wo co t dt T D hT hD hDa fuel hf
+    obtain ⟨r, h1, h2⟩ := foldr_any (fun m => isDerived q fuel h t dt (some m)) (eb ++ D.block)
       (fun m _ => hdec (some m))
     refine ⟨r, h1, ?_⟩
     rw [h2]
@@ -303,10 +303,10 @@ theorem chain_valid {h : Hier} {t u ms} (c : Chain h t u ms) : ∃ T, h[t]? = so
 
 /-- **C07, xsi:type.**  The xsi:type step reports no error and hands type `g` to the rest of the
     validation exactly when `Governs` holds. -/
-theorem xsi_checks_iff (h : Hier) (wo : WellOrdered h) (co : ComplexOnly h) (e : EDecl) (D : TDef)
+theorem xsi_checks_iff (q : Quirks) (h : Hier) (wo : WellOrdered h) (co : ComplexOnly h) (e : EDecl) (D : TDef)
     (hD : h[e.ty]? = some D) (hDa : D.anyType = false) (fuel : Nat) (hf : h.length ≤ fuel)
     (x : XsiAttr) (g : Nat) :
-    xsiStep fuel h e e.ty x = ([], g) ↔ Governs h e x g := by
+    xsiStep q fuel h e e.ty x = ([], g) ↔ Governs h e x g := by
   unfold xsiStep Governs
   cases x with
   | absent => simp [eq_comm]
@@ -315,7 +315,7 @@ theorem xsi_checks_iff (h : Hier) (wo : WellOrdered h) (co : ComplexOnly h) (e :
     simp only
     cases hT : h[t]? with
     | none =>
-      have hnone : isDerived fuel h t e.ty none = none := by
+      have hnone : isDerived q fuel h t e.ty none = none := by
         cases fuel with
         | zero => rfl
         | succ f => simp [isDerived, hT]
@@ -328,8 +328,8 @@ theorem xsi_checks_iff (h : Hier) (wo : WellOrdered h) (co : ComplexOnly h) (e :
     | some T =>
       have hl : t < fuel := by
         have := (List.getElem?_eq_some_iff.mp hT).1; omega
-      obtain ⟨hs, -, hdec⟩ := isDerived_spec h wo co t e.ty T D hT hD hDa fuel hl
-      obtain ⟨rb, hb1, hb2⟩ := isBlocked_spec h wo co t e.ty T D hT hD hDa e.block fuel hl
+      obtain ⟨hs, -, hdec⟩ := isDerived_spec q h wo co t e.ty T D hT hD hDa fuel hl
+      obtain ⟨rb, hb1, hb2⟩ := isBlocked_spec q h wo co t e.ty T D hT hD hDa e.block fuel hl
       obtain ⟨r, hr⟩ := hdec none
       cases r with
       | false =>
@@ -365,14 +365,14 @@ def ElementOk (h : Hier) (cs : CSem) (e : EDecl) (i : Inst) : Prop :=
     xsi:type attribute is acceptable, the governing type (the named type when xsi:type is present)
     is not abstract, xsi:nil is acceptable and — unless nilled — the content is valid for the
     *governing* type and agrees with the fixed value. -/
-theorem element_valid_iff (h : Hier) (wo : WellOrdered h) (co : ComplexOnly h) (cs : CSem) (e : EDecl)
+theorem element_valid_iff (q : Quirks) (h : Hier) (wo : WellOrdered h) (co : ComplexOnly h) (cs : CSem) (e : EDecl)
     (D : TDef) (hD : h[e.ty]? = some D) (hDa : D.anyType = false) (fuel : Nat) (hf : h.length ≤ fuel)
     (i : Inst) :
-    elementErrs fuel h cs e e.ty i = [] ↔ ElementOk h cs e i := by
-  have hx := xsi_checks_iff h wo co e D hD hDa fuel hf i.xsi
+    elementErrs q fuel h cs e e.ty i = [] ↔ ElementOk h cs e i := by
+  have hx := xsi_checks_iff q h wo co e D hD hDa fuel hf i.xsi
   obtain ⟨hn1, hn2⟩ := nil_checks_iff e i
   unfold elementErrs ElementOk
-  rcases hxs : xsiStep fuel h e e.ty i.xsi with ⟨xe, gov⟩
+  rcases hxs : xsiStep q fuel h e e.ty i.xsi with ⟨xe, gov⟩
   rcases hns : nilStep e i with ⟨ne, nilled⟩
   rw [hns] at hn1 hn2
   simp only at hn1 hn2
@@ -553,17 +553,17 @@ def SubstOk (h : Hier) (es : List EDecl) (head m : Nat) : Prop :=
     (transitively) in the head's substitution group through links that do not block substitution,
     it is not abstract, the head does not block substitution and the derivation of the member's
     type from the head's type uses no method blocked by the head or the head's type. -/
-theorem subst_accept_iff (h : Hier) (wo : WellOrdered h) (co : ComplexOnly h) (es : List EDecl)
+theorem subst_accept_iff (q : Quirks) (h : Hier) (wo : WellOrdered h) (co : ComplexOnly h) (es : List EDecl)
     (ewo : EWellOrdered es) (head m : Nat) (H M : EDecl) (hH : es[head]? = some H)
     (hM : es[m]? = some M) (TM D : TDef) (hTM : h[M.ty]? = some TM) (hD : h[H.ty]? = some D)
     (hDa : D.anyType = false) (fuel : Nat) (hf1 : h.length ≤ fuel) (hf2 : es.length ≤ fuel) :
-    substVerdict fuel h es head m = .accepted ↔ SubstOk h es head m := by
+    substVerdict q fuel h es head m = .accepted ↔ SubstOk h es head m := by
   have hmf : m < fuel := by
     have := (List.getElem?_eq_some_iff.mp hM).1; omega
   have htf : M.ty < fuel := by
     have := (List.getElem?_eq_some_iff.mp hTM).1; omega
   obtain ⟨r, hr1, hr2⟩ := reaches_spec es ewo head m m (Nat.le_refl _) fuel hmf M hM
-  obtain ⟨rb, hb1, hb2⟩ := isBlocked_spec h wo co M.ty H.ty TM D hTM hD hDa H.block fuel htf
+  obtain ⟨rb, hb1, hb2⟩ := isBlocked_spec q h wo co M.ty H.ty TM D hTM hD hDa H.block fuel htf
   unfold substVerdict SubstOk
   simp only [hH, hM, hr1]
   constructor
@@ -601,15 +601,15 @@ theorem subst_accept_iff (h : Hier) (wo : WellOrdered h) (co : ComplexOnly h) (e
 /-- A simple type defined by restriction is never derived "by extension" from another type: the
     simple variant answers `False` at the first step whose method differs from the requested one
     (simple_types.py:413-417), so `block="extension"` can never block a simple type. -/
-theorem simple_not_derived_by_extension (h : Hier) (t u : Nat) (T U : TDef) (hT : h[t]? = some T)
+theorem simple_not_derived_by_extension (q : Quirks) (h : Hier) (t u : Nat) (T U : TDef) (hT : h[t]? = some T)
     (hU : h[u]? = some U) (hs : T.complex = false) (hd : T.deriv = some .restr) (fuel : Nat) :
-    isDerived (fuel + 1) h t u (some .ext) = some false := by
+    isDerived q (fuel + 1) h t u (some .ext) = some false := by
   simp [isDerived, hT, hU, hs, clearS, hd]
 
 /-- For a simple restriction, asking for `restriction` is the same as asking for plain derivation. -/
-theorem simple_restr_eq_plain (h : Hier) (t u : Nat) (T U : TDef) (hT : h[t]? = some T)
+theorem simple_restr_eq_plain (q : Quirks) (h : Hier) (t u : Nat) (T U : TDef) (hT : h[t]? = some T)
     (hU : h[u]? = some U) (hs : T.complex = false) (hd : T.deriv = some .restr) (fuel : Nat) :
-    isDerived (fuel + 1) h t u (some .restr) = isDerived (fuel + 1) h t u none := by
+    isDerived q (fuel + 1) h t u (some .restr) = isDerived q (fuel + 1) h t u none := by
   simp [isDerived, hT, hU, hs, clearS, hd]
 
 /-! ## Non-vacuity -/
@@ -635,24 +635,24 @@ def cs : CSem := { contentOk := fun g v => g == v, fixedOk := fun _ _ => true }
 
 example : Chain hier 2 0 [some .restr, some .ext] :=
   Chain.step (T := hier[2]) rfl rfl (Chain.step (T := hier[1]) rfl rfl (Chain.refl 0 (by decide)))
-example : isDerived 4 hier 2 0 none = some true := by decide
-example : isDerived 4 hier 2 0 (some .ext) = some true := by decide
-example : isDerived 4 hier 3 0 none = some false := by decide
+example : isDerived .pinned 4 hier 2 0 none = some true := by decide
+example : isDerived .pinned 4 hier 2 0 (some .ext) = some true := by decide
+example : isDerived .pinned 4 hier 3 0 none = some false := by decide
 /-- xsi:type = E accepted (extension not blocked), content then validated against E -/
-example : elementErrs 4 hier cs eB 0 { xsi := .named 1, variant := 1 } = [] := by decide
-example : elementErrs 4 hier cs eB 0 { xsi := .named 1, variant := 0 } = [.content] := by decide
+example : elementErrs .pinned 4 hier cs eB 0 { xsi := .named 1, variant := 1 } = [] := by decide
+example : elementErrs .pinned 4 hier cs eB 0 { xsi := .named 1, variant := 0 } = [.content] := by decide
 /-- xsi:type = R: blocked (restriction step) and abstract -/
-example : elementErrs 4 hier cs eB 0 { xsi := .named 2, variant := 2 } = [.blocked, .abstractType] := by decide
-example : elementErrs 4 hier cs eB 0 { xsi := .named 3, variant := 3 } = [.notDerived, .content] := by decide
+example : elementErrs .pinned 4 hier cs eB 0 { xsi := .named 2, variant := 2 } = [.blocked, .abstractType] := by decide
+example : elementErrs .pinned 4 hier cs eB 0 { xsi := .named 3, variant := 3 } = [.notDerived, .content] := by decide
 example : ElementOk hier cs eB { xsi := .named 1, variant := 1 } :=
-  (element_valid_iff hier wo co cs eB hier[0] rfl rfl 4 (by decide) _).mp (by decide)
-example : elementErrs 4 hier cs eB 0 { nil := some "true", hasText := true } = [.nilNotEmpty] := by decide
-example : elementErrs 4 hier cs eB 0 { nil := some "true", variant := 9 } = [] := by decide
+  (element_valid_iff .pinned hier wo co cs eB hier[0] rfl rfl 4 (by decide) _).mp (by decide)
+example : elementErrs .pinned 4 hier cs eB 0 { nil := some "true", hasText := true } = [.nilNotEmpty] := by decide
+example : elementErrs .pinned 4 hier cs eB 0 { nil := some "true", variant := 9 } = [] := by decide
 def els : List EDecl := [ { ty := 0, block := [.restr] }, { ty := 1, subst := some 0 }, { ty := 2, subst := some 1 },
                           { ty := 1, subst := some 0, abstract := true } ]
-example : substVerdict 4 hier els 0 1 = .accepted := by decide
-example : substVerdict 4 hier els 0 2 = .blocked := by decide
-example : substVerdict 4 hier els 0 3 = .notSubstitute := by decide
+example : substVerdict .pinned 4 hier els 0 1 = .accepted := by decide
+example : substVerdict .pinned 4 hier els 0 2 = .blocked := by decide
+example : substVerdict .pinned 4 hier els 0 3 = .notSubstitute := by decide
 example : selectAlt [(true, false, 5), (true, true, 6), (false, false, 7)] 0 = 6 := by decide
 end Demo
 
